@@ -88,21 +88,21 @@ func (vc *VC) libCall(fr *frame, n *Node, x *ssa.Call, callee *ssa.Function, arg
 		vc.defVal(n, x, fmt.Sprintf("(and (fp.isInfinite %s) (or (and %s (fp.isPositive %s)) (and %s (fp.isNegative %s))))", args[0].T, pos, args[0].T, neg, args[0].T))
 		return true
 	case "strings.HasPrefix", "strings.HasSuffix":
-		fn := "str.hasprefix"
+		fn := "strhasprefix"
 		if full == "strings.HasSuffix" {
-			fn = "str.hassuffix"
+			fn = "strhassuffix"
 		}
 		trust(full + ": uninterpreted predicate with len(prefix) <= len(s), every string has the empty prefix and itself")
 		e.addPre(fn, fmt.Sprintf("(declare-fun %s (Str Str) Bool)", fn))
-		e.addPre(fn+".ax", fmt.Sprintf("(assert (forall ((s Str) (p Str)) (! (=> (%s s p) %s) :pattern ((%s s p)))))\n(assert (forall ((s Str)) (! (%s s str.empty) :pattern ((%s s str.empty)))))\n(assert (forall ((s Str)) (! (%s s s) :pattern ((%s s s)))))",
-			fn, e.sle("(str.len p)", "(str.len s)"), fn, fn, fn, fn, fn))
+		e.addPre(fn+".ax", fmt.Sprintf("(assert (forall ((s Str) (p Str)) (! (=> (%s s p) %s) :pattern ((%s s p)))))\n(assert (forall ((s Str)) (! (%s s strempty) :pattern ((%s s strempty)))))\n(assert (forall ((s Str)) (! (%s s s) :pattern ((%s s s)))))",
+			fn, e.sle("(strlen p)", "(strlen s)"), fn, fn, fn, fn, fn))
 		vc.defVal(n, x, fmt.Sprintf("(%s %s %s)", fn, args[0].T, args[1].T))
 		return true
 	case "strings.TrimPrefix":
 		trust("strings.TrimPrefix: s[len(p):] if HasPrefix(s,p) else s")
-		e.addPre("str.hasprefix", "(declare-fun str.hasprefix (Str Str) Bool)")
-		sub := vc.strSub(args[0].T, fmt.Sprintf("(str.len %s)", args[1].T), fmt.Sprintf("(str.len %s)", args[0].T))
-		vc.defVal(n, x, fmt.Sprintf("(ite (str.hasprefix %s %s) %s %s)", args[0].T, args[1].T, sub, args[0].T))
+		e.addPre("strhasprefix", "(declare-fun strhasprefix (Str Str) Bool)")
+		sub := vc.strSub(args[0].T, fmt.Sprintf("(strlen %s)", args[1].T), fmt.Sprintf("(strlen %s)", args[0].T))
+		vc.defVal(n, x, fmt.Sprintf("(ite (strhasprefix %s %s) %s %s)", args[0].T, args[1].T, sub, args[0].T))
 		return true
 	case "fmt.Errorf", "errors.New":
 		trust(full + " returns a non-nil error")
